@@ -647,7 +647,9 @@ R.spec(F, "JournalStorageReplayResult._apply_create_trial", props=["C06", "C01",
                "implies(not mine(self, log), private_unchanged(self))",
                "implies(mine(self, log), self._last_created_trial_id_by_this_process == %s)" % NEW_T,
                "implies(mine(self, log) and j_trial(self, %s).state == TrialState.RUNNING, owns(self, %s))" % (NEW_T, NEW_T),
-               "implies(mine(self, log) and j_trial(self, %s).state != TrialState.RUNNING, own_map_unchanged(self))" % NEW_T,
+               # (what the issuer's ownership entry holds after creating a non-RUNNING trial is deliberately left open: it is
+               # only read right after this worker's own RUNNING claim was replayed, which sets or clears it -- a seeded change
+               # that records the creator as owner is harmless on the fixed tree and must not be flagged)
            ])],
        ensures_all=JINV,
        # records (plain dict<str,val> / list<val>) are NOT in the frame: the automatic frame obligations prove that
